@@ -242,82 +242,36 @@ def nontrivial(case):
                                 for t in case['request']['traits'])
 
 
-def load_corpus():
-    path = os.path.join(core.VERIF, 'corpus', 'c19.json')
-    if os.path.exists(path):
-        with open(path) as f:
-            return json.load(f)
-    return []
+def _impl(case):
+    o, msg = impl_run(case)
+    return {'outcome': o, 'message': msg}
+
+
+def _extra(_r, cases, obs):
+    dist = {'accept': 0, 'reject': 0, 'crash': 0, 'wf': 0, 'malformed': 0}
+    for c, o in zip(cases, obs):
+        dist[['accept', 'reject', 'crash'][o['outcome']]] += 1
+        dist['wf' if case_wf(c) else 'malformed'] += 1
+    return {'distribution': dist}
 
 
 def run(tier, seed):
-    r = core.Run(PID, tier, seed)
-    rng = random.Random(seed)
-    n = 600 if tier == 'quick' else 20000
-    terr = core.regen_tables()
-    for sec, msg in terr:
-        if sec == 'c19':
-            r.broken_obligation('tables', 'translator section c19 (api/allocation.py dataflow)', msg)
-    okm, logm = core.make(['Api/Capacity', 'Gen/Tables', 'Base/Flat'])
-    proof = core.compile_props(PID)
-    if not proof['ok']:
-        r.broken_obligation('proof', proof['failed'] or 'Props/C19.v', proof['log'])
-    elif not proof['axioms_ok']:
-        r.broken_obligation('proof', 'Print Assumptions: ' + ', '.join(proof['axioms']))
-    bad = core.grep_forbidden()
-    if bad:
-        r.broken_obligation('proof', 'forbidden vernacular: ' + '; '.join(bad[:5]))
-
-    cases = [c for c in load_corpus()]
-    ncorpus = len(cases)
-    for i in range(n):
-        cases.append(gen_case(rng, malformed=(i % 10 == 9)))
-    outcomes = []
-    dist = {'accept': 0, 'reject': 0, 'crash': 0, 'wf': 0, 'malformed': 0, 'nontrivial': 0}
-    for c in cases:
-        o, msg = impl_run(c)
-        outcomes.append((o, msg))
-        dist[['accept', 'reject', 'crash'][o]] += 1
-        dist['wf' if case_wf(c) else 'malformed'] += 1
-        v = oracle(c, o, msg)
-        if v:
-            r.violation(v[0], v[1], c, {'impl_outcome': o, 'impl_message': msg})
-    # correspondence
-    mism, err = ([], 'model does not build: ' + logm[-800:]) if not okm else core.run_mismatches(
-        PREAMBLE, RUN_FN, [(case_term(c), G.zlist([o])) for c, (o, _m) in zip(cases, outcomes)],
-        'partition * list alloc * Z * request')
-    if err:
-        r.broken_obligation('correspondence', 'E-api/C19 could not evaluate the model', err)
-    if mism:
-        smallest = min(mism, key=lambda i: len(json.dumps(cases[i])))
-        mo, _e = core.model_output(PREAMBLE, RUN_FN, case_term(cases[smallest]))
-        r.broken_obligation('correspondence',
-                            'E-api/C19 check_capacity: %d of %d cases differ' % (len(mism), len(cases)),
-                            json.dumps({'case': cases[smallest], 'impl': outcomes[smallest][0], 'model': mo}))
-    if r.broken and not r.violations:
-        # failing-input search: fresh budget on the implementation with the oracle
-        rng2 = random.Random(seed + 1)
-        extra = 5000 if tier == 'quick' else 100000
-        for i in range(extra):
-            c = gen_case(rng2)
-            o, msg = impl_run(c)
-            v = oracle(c, o, msg)
-            if v:
-                r.violation(v[0], v[1], c, {'impl_outcome': o, 'impl_message': msg})
-                if len(r.violations) > 20:
-                    break
-    nt = [c for c in cases if nontrivial(c)]
-    dist['nontrivial'] = len(nt)
-    cov = {
-        'evaluations': len(cases), 'distinct_nontrivial': core.distinct_count(nt),
+    core.standard_run(PID, tier, seed, {
+        'model_vos': ['Api/Capacity', 'Gen/Tables'], 'table_sections': ['c19'],
+        'preamble': PREAMBLE, 'run_fn': RUN_FN, 'in_type': 'partition * list alloc * Z * request',
+        'gen_case': lambda rng, i: gen_case(rng, malformed=(i % 10 == 9)),
+        'impl_run': _impl,
+        'expected': lambda c, o: [o['outcome']],
+        'case_term': lambda c, o: case_term(c),
+        'oracle': lambda c, o: oracle(c, o['outcome'], o['message']),
+        'nontrivial': lambda c, o: nontrivial(c),
+        'n_quick': 600, 'n_thorough': 20000, 'search_quick': 5000, 'search_thorough': 100000,
+        'corpus': 'c19.json',
         'rule': 'seeded generator (one random.Random(seed)); partition + <=3 limited traits + <=6 reservations '
                 '+ request, every quantity spelled in a random unit; every 10th case from the malformed stream; '
                 'non-trivial = some other reservation shares a limited trait with the request',
-        'samples': [cases[ncorpus], cases[ncorpus + 1]] if len(cases) > ncorpus + 1 else cases[:2],
-        'distribution': dist, 'corpus_cases': ncorpus, 'correspondence_mismatches': len(mism),
-        'source_sha256': core.source_hashes(ANCHORS),
-    }
-    r.finish(proof, coverage=cov, trusted_base=TRUSTED, assumptions=ASSUMPTIONS)
+        'trusted': TRUSTED, 'assumptions': ASSUMPTIONS, 'anchors': ANCHORS, 'extra': _extra,
+    })
 
 
 TRUSTED = [
